@@ -103,7 +103,7 @@ let find_alias (v : Abs.volume) (s : Tree.tstate) (d : coq_N) (name : coq_N list
 let pattern (n : int) (seed : int) : coq_N list =
   Stdlib.List.init n (fun i -> n_of_int ((seed + i * 7 + i / 251) mod 256))
 
-let run_script (si : int) (ops : opblock list) (do_wf : bool) (do_tree : bool) (do_info : bool) (do_regions : bool) : unit =
+let run_script (si : int) (ops : opblock list) (do_wf : bool) (do_tree : bool) (do_info : bool) (do_regions : bool) (sparse_info : bool) : unit =
   Printf.printf "S %d\n" si;
   let im = ref (Image.img_empty N0) in
   let ts = ref Tree.ts_init in
@@ -280,7 +280,7 @@ let run_script (si : int) (ops : opblock list) (do_wf : bool) (do_tree : bool) (
         end;
         if do_tree then
           Printf.printf "D %d %d\n" oi (Stdlib.List.length (Stdlib.List.filter (fun (_, f) -> f.Tree.fh_dirty) (!ts).Tree.ts_files));
-        if do_info && !formatted then begin
+        if do_info && !formatted && (not sparse_info || (match b.toks with ("stats" | "unmount" | "dropfs" | "forget") :: _ -> true | _ -> b.rkind = "err")) then begin
           let g = Abs.parse_geom !im in
           let fsi = BinNat.N.mul g.Abs.g_fsinfo_sector g.Abs.g_bps in
           let is32 = int_of_n (Abs.g_bits g) = 32 in
@@ -298,4 +298,4 @@ let main (flags : string list) : unit =
   let has f = Stdlib.List.mem f flags in
   (match Sys.getenv_opt "FATFS_UPPER_TABLE" with Some p -> load_upper p | None -> ());
   let scripts = read_transcript () in
-  Stdlib.List.iteri (fun si ops -> run_script si ops (has "wf") (has "tree") (has "info") (has "regions")) scripts
+  Stdlib.List.iteri (fun si ops -> run_script si ops (has "wf") (has "tree") (has "info" || has "infos") (has "regions") (has "infos")) scripts
